@@ -323,6 +323,7 @@ def run(ctx):
     ctx.rule("C04.finish", "finish callback on every path; failure reported upward", floor=4)
     ctx.rule("C04.rs", "changed server key persisted before the flush", floor=3)
     ctx.rule("C04.flush", "enqueue-before-test, single locked drain, stream event wiring", floor=6)
+    ctx.rule("C04.order", "frames intact and in sending order client->server: C11's lock-set rules adopted", floor=8)
     ctx.rule("C04.attempt", "per-attempt resources / reset", floor=3)
     ctx.assume("consonance calls the state callback and the stream events synchronously; the Noise handshake itself and chunkings (C05) are not decided here")
     ctx.guarded("C04.prologue", rule_prologue, ctx)
@@ -331,3 +332,7 @@ def run(ctx):
     ctx.guarded("C04.rs", rule_rs, ctx)
     ctx.guarded("C04.flush", rule_flush, ctx)
     ctx.guarded("C04.attempt", rule_attempt, ctx)
+    # 'stanzas arrive intact and in sending order' on the client->server side is the lock-set argument of C11, adopted
+    from . import c11
+    ctx.adopt_from("C11", [(c11.rule_hoh, ()), (c11.rule_enc, ()), (c11.rule_once_frame, ()), (c11.rule_disp, ())],
+                   {"C11.hoh": "C04.order", "C11.enc": "C04.order", "C11.frame": "C04.order", "C11.once": "C04.order", "C11.disp": "C04.order"})
